@@ -635,6 +635,9 @@ func runC12(env *lib.Env, rep *lib.Report) {
 									return
 								}
 								n.markDirty(lsn)
+								if lsn >= st._nextLSN {
+									st._nextLSN = lsn + 1 // (the store's LSN counter is always ahead of every stamp it has handed out)
+								}
 								all[n.fileOffset] = c12Logical(n)
 							}
 							if round == 1 && len(first) > 0 {
@@ -642,6 +645,9 @@ func runC12(env *lib.Env, rep *lib.Report) {
 								if old, err := st.fetch(pageSize); err == nil && old.isLeaf {
 									old.insertLeafCell(uint32(len(old.offsets)), 90000+uint32(round), c12Value(33, 9))
 									old.markDirty(second[0])
+									if second[0] >= st._nextLSN {
+										st._nextLSN = second[0] + 1
+									}
 									all[old.fileOffset] = c12Logical(old)
 								}
 							}
